@@ -262,6 +262,7 @@ def run_ascii_edge():
     texts = ["", "a" * 300, " !#$%&()*+,-./:;<=>?@[]^_`{|}~", "0123456789", "x" * 255 + "y", "tab\there", "caf\u00e9", "{{a}}", ".db 1", "a = 1",
              "*=0x8000", "/* c */", "; c", "a\\\\b",
              # text that looks like the escapes of OTHER directives (.text's [0xNN], splices, macro calls): plain characters here
+             'size 5"; wide', 'say "hi" twice', '"', 'a"',
              "HP[0x30]", "[0x41][0x42]", "x[0x7f", "{{blk}}", "mm(1)", "[0xZZ]", "100%", "a\\nb"]
     for t in texts:
         for tmpl in (".ascii '%s'\n", "{\n.ascii '%s'\n}\n", ".ascii '%s'\n.ascii '%s'\n", ".macro ma() {\n.ascii '%s'\n}\nma()\n"):
@@ -326,6 +327,18 @@ def run_incbin_contexts():
             outcomes.add("WRONG-FILE")
         else:
             outcomes.add("ok-dir")
+    # the four directives pack the same bytes under every mapping (incl. low2 and high)
+    for rom, org in (("low_rom_2", 0x818000), ("high_rom", 0xC18000), ("low_rom", 0x818000)):
+        rb = refbus.BUILTIN["low_rom" if rom == "low_rom_2" else rom]()
+        for d, w in WIDTH.items():
+            vals = [0x02ABCD, 0x8000, 0x12FFFF, 0x7F, 0x808080, 0x018000]
+            srcm = f"*=0x{org:06x}\n{d} " + ", ".join(hex(v) for v in vals) + "\n"
+            expm = b"".join((v % (256 ** w)).to_bytes(w, "little") for v in vals)
+            outm = impl.assemble(srcm, rom=rom)
+            evals += 1
+            if not outm.accepted or outm.blocks != [(rb.phys(org), expm)]:
+                viol.append({"key": f"data:wrong-bytes:{d}:mapping-{rom}", "msg": f"expected {expm.hex()} got {outm.brief()} :: {srcm!r}"})
+                outcomes.add("WRONG-UNDER-" + rom)
     wraps = {
         "for": (".for qi := 0, 3 {{\n{body}}}\n", 3), "block": ("{{\n{body}}}\n{{\n{body}}}\n", 2),
         "macro": (".macro mi() {{\n{body}}}\nmi()\nmi()\n", 2), "for-in-for": (".for qi := 0, 2 {{\n.for qj := 0, 2 {{\n{body}}}\n}}\n", 4),
